@@ -31,6 +31,8 @@ def val_to_json(v):
         if abs(n) > LIMIT or d > LIMIT:
             return {"k": "unrep"}
         return {"k": "flt", "n": n, "d": d}
+    if getattr(v, "_verif_kind", None) == "map":
+        return {"k": "map", "name": v._verif_name}
     if isinstance(v, tuple):
         return {"k": "tup", "items": [val_to_json(i) for i in v]}
     if isinstance(v, list):
@@ -76,6 +78,8 @@ def json_to_val(j):
         return envobjs.FUNCS[j["name"]]
     if k == "obj":
         return envobjs.OBJS[j["name"]]
+    if k == "map":
+        return envobjs.MAPS[j["name"]]
     raise ValueError(f"cannot build a value from {j!r}")
 
 
